@@ -1,8 +1,120 @@
 import LyModel.Valid.Spec
-/-! C02 — property theorems (under construction) -/
+import LyModel.Valid.LemmasMinMax
+import LyModel.Valid.LemmasUnique
+import LyModel.Valid.LemmasNew
+/-!
+# C02 — validation accepts exactly the instances that satisfy the schema
+
+Property theorems about the model `LyModel.Valid` of `src/validation.c` (correspondence with the C: `tools/checks/c02.py`).
+Helper lemmas live in `LyModel/Valid/Lemmas*.lean`.
+-/
 namespace LyModel.Props.C02
 open LyModel LyModel.Tree LyModel.Valid
 
-theorem placeholder : True := trivial
+/-! ## the loops of `lyd_validate_siblings_schema_r`, sharp about their shortcuts -/
+
+/-- **`lyd_validate_minmax` = plain counting**, for every instance list and every `min` / `max` (0 = no bound) a compiled schema can
+have (`min-elements` ≤ `max-elements`): "too few" iff fewer than `min` instances, else "too many" iff more than `max`, reported on
+instance number `max + 1`; the early `break`s (min reached and no max; max exceeded) change nothing. -/
+theorem minmax_correct (min max : Nat) (insts : List (DNode × Nat)) (hc : max = 0 ∨ min ≤ max) :
+    minmaxCheck min max insts =
+      if min ≠ 0 ∧ insts.length < min then .tooFew
+      else if h : max ≠ 0 ∧ max < insts.length then .tooMany (insts[max]'h.2)
+      else .ok := by
+  rw [minmaxCheck_eq, minmaxLoop_spec max insts 0 min (by omega) (by omega) (by omega)]
+  simp only [mmSpecFrom, Nat.zero_add, Nat.zero_le, and_true, Nat.sub_zero]
+
+/-- non-vacuity: three instances against `min-elements 1; max-elements 2` — the third one is reported -/
+example : (match minmaxCheck 1 2 [(.term 3 {} [] [97], 0), (.term 3 {} [] [98], 1), (.term 3 {} [] [99], 2)] with
+    | .tooMany (_, idx) => idx == 2 | _ => false) = true := by decide
+
+/-- The hypothesis of `minmax_correct` is needed: with `min > max + 1` (which `lys_compile` rejects) the loop stops at instance
+`max + 1` with `min` still open and reports "too few" although there are enough instances. -/
+theorem minmax_break_before_min :
+    ¬ ∀ (min max : Nat) (insts : List (DNode × Nat)), minmaxCheck min max insts =
+      (if min ≠ 0 ∧ insts.length < min then .tooFew
+       else if h : max ≠ 0 ∧ max < insts.length then .tooMany (insts[max]'h.2) else .ok) := by
+  intro h
+  have := h 3 1 [(.term 0 {} [] [], 0), (.term 0 {} [] [], 1), (.term 0 {} [] [], 2)]
+  rw [show minmaxCheck 3 1 [(DNode.term 0 {} [] [], 0), (DNode.term 0 {} [] [], 1), (DNode.term 0 {} [] [], 2)] = MMVerdict.tooFew from rfl] at this
+  simp at this
+
+/-- **`lyd_validate_unique`: the direct comparison (two instances) and the hash tables (more) decide the pairwise relation.**
+For every hash function, every list of instances and every set of `unique` statements, an error is raised iff two instances
+agree, for some statement, on all its leaves with every one of them set (instance or default): incomplete tuples are skipped
+by both paths, hash collisions and the order of insertion do not matter. -/
+theorem unique_hash_eq_pairwise (X : SchemaX) (lst : Nat) (hash : List Bytes → Nat) (uniques : List (List Nat))
+    (insts : List (DNode × Nat)) :
+    (uniqueCheck X lst hash uniques insts).isSome = existsPair (uniqViolPair X lst uniques) insts := by
+  unfold uniqueCheck
+  match insts with
+  | [] => simp [existsPair]
+  | [a] => simp [existsPair]
+  | [a, b] =>
+    simp only [existsPair, List.any_cons, List.any_nil, Bool.or_false, uniqViolPair]
+    split <;> simp_all
+  | a :: b :: c :: rest =>
+    simp only []
+    rw [uniqueHash_isSome]
+    simp
+
+/-- the verdict does not depend on the hash function (in particular not on collisions) -/
+theorem unique_hash_independent (X : SchemaX) (lst : Nat) (h1 h2 : List Bytes → Nat) (uniques : List (List Nat))
+    (insts : List (DNode × Nat)) :
+    (uniqueCheck X lst h1 uniques insts).isSome = (uniqueCheck X lst h2 uniques insts).isSome := by
+  rw [unique_hash_eq_pairwise, unique_hash_eq_pairwise]
+
+/-- **`lyd_validate_duplicates`: the `children_ht` branch = the linear scan**, for every hash function under which equal instances
+collide and every order of the collision chain (which holds the node itself and its siblings with the same hash). -/
+theorem dup_hash_eq_scan (S : Schema) (h : DNode → Nat) (others chain : List DNode) (node : DNode)
+    (hperm : chain.Perm (node :: others.filter (fun x => h x == h node)))
+    (hcong : ∀ x ∈ others, dupOf S node x = true → h x = h node) :
+    dupHash S chain node = dupScan S others node :=
+  dupHash_eq_dupScan S h others chain node hperm hcong
+
+/-- **`lyd_validate_cases`**: the scan over the cases of a choice fails iff two cases have only old data or two cases have new data. -/
+theorem cases_correct (sibs : List DNode) (cases : List STree) :
+    scanCases sibs cases none none = none ↔
+      2 ≤ (cases.filter (fun c => caseFound sibs c == 1)).length ∨ 2 ≤ (cases.filter (fun c => caseFound sibs c == 2)).length := by
+  have := scanCases_none_iff sibs cases none none
+  simpa [optCount] using this
+
+/-- for a freshly built or parsed sibling list (every node `LYD_NEW`): the scan fails iff data of two cases exist (RFC 7950 §7.9) -/
+theorem cases_fresh (sibs : List DNode) (cases : List STree) (hnew : ∀ n ∈ sibs, n.flags.new = true) :
+    scanCases sibs cases none none = none ↔ 2 ≤ (cases.filter (fun c => hasData sibs c.dataSids)).length := by
+  rw [cases_correct]
+  have hf : ∀ c : STree, caseFound sibs c = if hasData sibs c.dataSids then 2 else 0 := by
+    intro c
+    unfold caseFound hasData
+    dsimp only
+    by_cases hany : (sibs.filter (inSids c.dataSids)).any (·.flags.new) = true
+    · obtain ⟨n, hn, _⟩ := List.any_eq_true.1 hany
+      have := List.mem_filter.1 hn
+      rw [if_pos hany, if_pos (List.any_eq_true.2 ⟨n, this.1, this.2⟩)]
+    · have hemp : sibs.filter (inSids c.dataSids) = [] := by
+        apply List.eq_nil_iff_forall_not_mem.2
+        intro n hn
+        apply hany
+        exact List.any_eq_true.2 ⟨n, hn, hnew n (List.mem_filter.1 hn).1⟩
+      have hno : ¬ sibs.any (inSids c.dataSids) = true := by
+        intro h
+        obtain ⟨n, hn, hp⟩ := List.any_eq_true.1 h
+        have : n ∈ sibs.filter (inSids c.dataSids) := List.mem_filter.2 ⟨hn, hp⟩
+        rw [hemp] at this
+        cases this
+      rw [if_neg hany, if_neg hno, hemp]
+      rfl
+  have h1 : (cases.filter (fun c => caseFound sibs c == 1)) = [] := by
+    apply List.filter_eq_nil_iff.2
+    intro c _
+    rw [hf c]
+    split <;> simp
+  have h2 : (cases.filter (fun c => caseFound sibs c == 2)) = cases.filter (fun c => hasData sibs c.dataSids) := by
+    apply List.filter_congr
+    intro c _
+    rw [hf c]
+    split <;> simp_all
+  rw [h1, h2]
+  simp
 
 end LyModel.Props.C02
